@@ -281,6 +281,10 @@ F5_SCRIPTS = {
     "later-branch-reads-name-rebound-in-earlier-branch": "label = 'ab'\nk = 0\nwhile True:\n    if k % 2 == 0:\n        mon.write('even')\n    elif k == 99:\n        label = 'abcd'\n        mon.write(len(label))\n    else:\n        mon.write(len(label))\n    k = k + 1\n    sleep(1)\n",
     "else-branch-reads-list-rebound-in-if-branch": "pat = [1, 0, 0]\nc = 0\nif c > 0:\n    pat = [1, 1, 1, 1]\n    mon.write(len(pat))\nelse:\n    mon.write(len(pat))\n",
     "folded-chained-comparison": "mon.write(100 if 1 < 5 < 3 else 200)\nmon.write(0 <= 300 <= 255)\nsleep(100 if 10 > 4 > 7 else 20)\n",
+    "augmented-string-in-for-then-len": "s = 'ab'\nfor i in range(3):\n    s += 'c'\nk = len(s)\nmon.write(k)\n",
+    "augmented-int-in-while-then-derived": "total = 3\nj = 0\nwhile j < 3:\n    total *= 2\n    j += 1\nout = total + 1\nmon.write(out)\n",
+    "augmented-in-main-loop-then-len": "msg = 'a'\nwhile True:\n    msg += 'b'\n    mon.write(len(msg))\n    sleep(1)\n",
+    "two-identical-list-literals": "on_pat = [1, 0]\noff_pat = [1, 0]\non_pat.append(1)\nmon.write(len(off_pat))\nmon.write(len(on_pat))\n",
     "derived-in-main-loop": "x = 1\nwhile True:\n    y = x + 1\n    mon.write(y)\n    x = x + 2\n    sleep(1)\n",
 }
 
